@@ -161,6 +161,54 @@ Proof.
   - apply derivers_mapped_innermost.
 Qed.
 
+(* ---------- predicate directives: add_{view,route,subscriber}_predicate -> _add_predicate -> (register)
+   get_predlist(type).add -> sorter.add, every hop regenerated; the composition hands the directive's arguments to the
+   sorter of the list named after the directive's kind with  after = weighs_more_than, before = weighs_less_than *)
+Definition gen_pred_directive (k : pkind) :=
+  match k with
+  | PView => gen_pred_directive_view | PRoute => gen_pred_directive_route | PSubscriber => gen_pred_directive_subscriber
+  end.
+
+Definition gen_pred_chain (k : pkind) (n : node) (v : N) (more less : hint) : node * (node * N * hint * hint) :=
+  let '(t1, n1, v1, m1, l1) := gen_pred_directive k n v more less in
+  let '(t2, n2, v2, m2, l2) := gen_add_predicate t1 n1 v1 m1 l1 in
+  (t2, gen_pl_add n2 v2 m2 l2).
+
+Theorem gen_pred_chain_is_spec k n v more less :
+  gen_pred_chain k n v more less = (pkind_text k, (n, v, more, less)).
+Proof. destruct k; reflexivity. Qed.
+
+Theorem gen_pred_chain_is_model k n v more less s :
+  let '(t, (n', v', a, b)) := gen_pred_chain k n v more less in
+  t = pkind_text k /\ add n' v' a b s = pred_directive k n v more less s.
+Proof. rewrite gen_pred_chain_is_spec. split; [reflexivity|]. symmetry. apply pred_directive_add. Qed.
+
+(* end to end: any add_*_predicate calls pushed through the REGENERATED chain on top of the stock predicates give an
+   order / error the judge accepts for  weighs_more_than = after, weighs_less_than = before *)
+Definition gen_pred_step (k : pkind) (s : sorter) (x : node * N * hint * hint) : sorter :=
+  let '(n, f, m, l) := x in
+  let '(_, (n', v', a, b)) := gen_pred_chain k n f m l in add n' v' a b s.
+
+Theorem gen_preds_scenario_judged k adds :
+  let s0 := fold_left (fun s n => gen_pred_step k s (n, 0%N, HNone, HNone)) (pd_defaults k) (new_sorter cfg_plain) in
+  judge cfg_plain (decls_of cfg_plain (pred_ops k adds)) (sorted (fold_left (gen_pred_step k) adds s0)) = true.
+Proof.
+  cbv zeta.
+  assert (E : forall s x, gen_pred_step k s x = let '(n, f, m, l) := x in pred_directive k n f m l s).
+  { intros s [[[n f] m] l]. unfold gen_pred_step. rewrite gen_pred_chain_is_spec. symmetry. apply pred_directive_add. }
+  assert (E1 : forall l s, fold_left (fun s n => gen_pred_step k s (n, 0%N, HNone, HNone)) l s
+                           = fold_left (fun s n => pred_directive k n 0%N HNone HNone s) l s).
+  { induction l as [|x l IH]; intros s; cbn [fold_left]; [reflexivity|]. rewrite E. apply IH. }
+  assert (E2 : forall l s, fold_left (gen_pred_step k) l s
+                           = fold_left (fun s x => let '(n, f, m, l) := x in pred_directive k n f m l s) l s).
+  { induction l as [|x l IH]; intros s; cbn [fold_left]; [reflexivity|]. rewrite E. apply IH. }
+  rewrite E2, E1. apply preds_scenario_judged.
+Qed.
+
+Example ex_pred_chain :
+  gen_pred_chain PRoute (tx 112) 7 (HOne (tx 97)) (HMany [tx 98]) = (pkind_text PRoute, (tx 112, 7%N, HOne (tx 97), HMany [tx 98])).
+Proof. reflexivity. Qed.
+
 (* ---------- non-vacuity: each refusal code and an accepted call are reachable *)
 Example ex_deriver_codes :
   gen_deriver_args dv_view HNone HNone = inl 1%N /\
